@@ -139,8 +139,16 @@ func (ex *Exec) assert(st *State, cond *Term, label string, detail string) {
 		switch st.ex.crossCheck(append(st.slicePC(neg), neg)) {
 		case Unsat:
 			res.CrossChecked++
+			ex.crossUnknownRun = 0
 		case Unknown:
 			res.CrossUnknown++
+			// an entry whose obligations the second pipelines cannot decide (bit-twiddling under the integer
+			// encoding) would spend its whole budget in time-outs: after 6 undecided in a row the rest of the
+			// entry is not cross-checked (the count of undecided ones is in the evidence)
+			ex.crossUnknownRun++
+			if ex.crossUnknownRun >= 6 {
+				ex.crossN = 400
+			}
 		case Sat:
 			res.CrossDisagree++
 			res.SolverErrors = append(res.SolverErrors, "solver disagreement (primary unsat, second solver sat) at "+label)
